@@ -62,20 +62,16 @@ Fixpoint enc_ser (v : ser) : bytes :=
   | SUnset => enc_unset
   | SU64 i => enc_u64 i
   | SString s => enc_string s
-  | SArray l => enc_array_hdr (length l) ++
-      (fix go (l : list ser) : bytes := match l with [] => [] | x :: l' => enc_ser x ++ go l' end) l
-  | SMap l => enc_map_hdr (length l) ++
-      (fix go (l : list (ser * ser)) : bytes :=
-         match l with [] => [] | (k, x) :: l' => enc_ser k ++ enc_ser x ++ go l' end) l
+  | SArray l => enc_array_hdr (length l) ++ flat_map enc_ser l
+  | SMap l => enc_map_hdr (length l) ++ flat_map (fun kv => enc_ser (fst kv) ++ enc_ser (snd kv)) l
   | SPair k x => c24_tagPair :: c24_tagKey :: enc_ser k ++ c24_tagValue :: enc_ser x
   end.
 
 Fixpoint ser_wf (v : ser) : bool :=
   match v with
   | SU64 i => is_u64 i
-  | SArray l => (fix go (l : list ser) : bool := match l with [] => true | x :: l' => ser_wf x && go l' end) l
-  | SMap l => (fix go (l : list (ser * ser)) : bool :=
-                 match l with [] => true | (k, x) :: l' => ser_wf k && ser_wf x && go l' end) l
+  | SArray l => forallb ser_wf l
+  | SMap l => forallb (fun kv => ser_wf (fst kv) && ser_wf (snd kv)) l
   | SPair k x => ser_wf k && ser_wf x
   | _ => true
   end.
@@ -97,20 +93,17 @@ Fixpoint enc_pb (v : pbval) : bytes :=
   | PStr s => enc_string s
   | PBool b => enc_bool b
   | PUnset => enc_unset
-  | PList l => enc_array_hdr (length l) ++
-      (fix go (l : list pbval) : bytes := match l with [] => [] | x :: l' => enc_pb x ++ go l' end) l
+  | PList l => enc_array_hdr (length l) ++ flat_map enc_pb l
   | PStruct fs =>
-      let encs := (fix go (l : list (bytes * pbval)) : list (bytes * bytes) :=
-                     match l with [] => [] | (k, x) :: l' => (k, enc_pb x) :: go l' end) fs in
       enc_map_hdr (length fs) ++
-      flat_map (fun ke => enc_string (fst ke) ++ snd ke) (go_isort kless encs)
+      flat_map (fun ke => enc_string (fst ke) ++ snd ke)
+               (go_isort kless (map (fun kv => (fst kv, enc_pb (snd kv))) fs))
   end.
 
 Fixpoint pb_size (v : pbval) : nat :=
   match v with
-  | PList l => S ((fix go (l : list pbval) : nat := match l with [] => O | x :: l' => (pb_size x + go l')%nat end) l)
-  | PStruct fs => S ((fix go (l : list (bytes * pbval)) : nat :=
-                        match l with [] => O | (_, x) :: l' => (pb_size x + go l')%nat end) fs)
+  | PList l => S (list_sum (map pb_size l))
+  | PStruct fs => S (list_sum (map (fun kv => pb_size (snd kv)) fs))
   | _ => 1%nat
   end.
 
@@ -161,9 +154,8 @@ Definition pb_write_opt (o : option pbval) : bytes :=
 Fixpoint pb_wf (v : pbval) : bool :=
   match v with
   | PNum b => is_u64 b
-  | PList l => (fix go (l : list pbval) : bool := match l with [] => true | x :: l' => pb_wf x && go l' end) l
-  | PStruct fs => (fix go (l : list (bytes * pbval)) : bool :=
-                     match l with [] => true | (_, x) :: l' => pb_wf x && go l' end) fs
+  | PList l => forallb pb_wf l
+  | PStruct fs => forallb (fun kv => pb_wf (snd kv)) fs
   | _ => true
   end.
 
@@ -173,11 +165,8 @@ Fixpoint nodupb (l : list bytes) : bool :=
 (* Go maps have unique keys *)
 Fixpoint pb_keys_unique (v : pbval) : bool :=
   match v with
-  | PList l => (fix go (l : list pbval) : bool :=
-                  match l with [] => true | x :: l' => pb_keys_unique x && go l' end) l
-  | PStruct fs => nodupb (map fst fs) &&
-                  (fix go (l : list (bytes * pbval)) : bool :=
-                     match l with [] => true | (_, x) :: l' => pb_keys_unique x && go l' end) fs
+  | PList l => forallb pb_keys_unique l
+  | PStruct fs => nodupb (map fst fs) && forallb (fun kv => pb_keys_unique (snd kv)) fs
   | _ => true
   end.
 
